@@ -75,16 +75,18 @@ def build_router(cfg: Dict[str, Any]):
             handler.__annotations__ = {"return": pt.Expr}
             return pt.ABIReturnSubroutine(handler)
         if m.get("via") == "decorator-default":
-            def handler_fn0(i=i):
-                return pt.Log(pt.Bytes("M_%d" % i))
+            def handler_fn0():
+                return pt.Log(pt.Bytes("M_%d" % _i))
+            handler_fn0 = _bind(handler_fn0, i)
             handler_fn0.__name__ = m["name"]
             handler_fn0.__annotations__ = {"return": pt.Expr}
             r.method(handler_fn0)
         elif m.get("via") == "decorator":
             # @router.method(<only the keywords that are not NEVER>): unspecified OnCompletions mean NEVER
             # (and no keyword at all means no_op=CALL)
-            def handler_fn(i=i):
-                return pt.Log(pt.Bytes("M_%d" % i))
+            def handler_fn():
+                return pt.Log(pt.Bytes("M_%d" % _i))
+            handler_fn = _bind(handler_fn, i)
             handler_fn.__name__ = m["name"]
             handler_fn.__annotations__ = {"return": pt.Expr}
             r.method(**{k: cc[v] for k, v in m["config"].items() if v != NEVER})(handler_fn)
@@ -92,6 +94,14 @@ def build_router(cfg: Dict[str, Any]):
             mc = pt.MethodConfig(**{k: cc[v] for k, v in m["config"].items()})
             r.add_method_handler(mk(), method_config=mc)
     return r
+
+
+def _bind(fn, i):
+    """a copy of the parameterless function fn whose global `_i` is i (a subroutine must not have default arguments)"""
+    import types
+    g = dict(fn.__globals__)
+    g["_i"] = i
+    return types.FunctionType(fn.__code__, g, fn.__name__, None, fn.__closure__)
 
 
 def compile_router(cfg, version, optimize=None, assemble=False):
@@ -207,6 +217,8 @@ def router_job(job: Dict[str, Any]) -> Dict[str, Any]:
     res, st, detail = compile_router(cfg, job["version"], job.get("optimize"), job.get("assemble", False))
     out["status"], out["detail"] = st, detail
     if st != "ok":
+        if job.get("expect_ok"):
+            raise HarnessError("a router that must compile was rejected: %s" % detail)
         return out
     ap, cl, contract = res
     # contract lists exactly the registered methods
